@@ -208,6 +208,8 @@ def snarfShiftGoC : Nat → List Char → Nat → Int → Int → Int
   | 0, _, _, _, _ => 0
   | fuel+1, spec, sem, b, d =>
     let (tmp, rest) := strtolC spec
+    -- a part out of range is refused before it is summed up
+    if tmp > 366 ∨ tmp < -366 then 0 else
     let neg0 : Bool := spec.head? = some '-'
     match rest with
     | [] => packShift (wrapInt (d + tmp)) b sem
